@@ -41,6 +41,11 @@ func c13Strings(e *core.Env) []string {
 		add(t)
 		add("x" + t + "y")
 	}
+	// directed combinations: repeated placeholders (same and different spelling), placeholders next to percent signs and quotes
+	for _, t := range []string{"{{ex.a}} and {{ex.a}}", "{{ex.a}}{{ex.a}}{{ex.b}}{{ex.a}}", "{{ ex.b }} x {{ ex.b }} y {{ex.b}}", "'{{ex.a}}' is \"{{ex.a}}\"",
+		"100% {{ex.a}} 50% {{ex.a}} %", "{{ex.zz}}{{ex.zz}}", "%v{{ex.a}}%d{{ex.a}}%%", "{{ex.a}}\n{{ex.a}}"} {
+		add(t)
+	}
 	for i := 0; i < e.Pick(260, 4000); i++ {
 		n := 2 + e.Rand.Intn(5)
 		s := ""
